@@ -31,6 +31,10 @@ pub enum Deflaters {
 
 impl Deflaters {
     pub(crate) fn deflate(self, data: &[u8], max_size: Option<usize>) -> PngResult<Vec<u8>> {
+        #[cfg(feature = "verif")]
+        if let Some(tap) = crate::verif::tap() {
+            tap.deflate(self, data, max_size);
+        }
         let compressed = match self {
             Self::Libdeflater { compression } => deflate(data, compression, max_size)?,
             #[cfg(feature = "zopfli")]
